@@ -18,6 +18,7 @@ import MpsVerif.Drv.Pipe
 import MpsVerif.Drv.ProcOutcome
 import MpsVerif.Drv.LogPipe
 import MpsVerif.Drv.Lane
+import MpsVerif.Drv.Wakeup
 
 def main (args : List String) : IO UInt32 := do
   match args with
@@ -43,4 +44,5 @@ def main (args : List String) : IO UInt32 := do
   | ["procoutcome"] => ProcOutcome.Drv.main; return 0
   | ["logpipe"] => LogPipe.Drv.main; return 0
   | ["lane"] => Lane.Drv.main; return 0
+  | ["wakeup"] => Wakeup.Drv.main; return 0
   | _ => IO.eprintln s!"usage: drv <model>   (see lean/Main.lean for the list of models)"; return 2
